@@ -534,6 +534,21 @@ fn run_c19(input: RunInput) -> ScenFuture {
                 }
             }
         }
+        if block && !w.violated() {
+            // Waits must follow the limiter's own clock. 2.5 replenishment periods of *simulated*
+            // time later (milliseconds of real time) at most burst + 3 requests of a peer may have
+            // been admitted whichever clock an implementation waits on (burst + replenishment over
+            // the window, rounded up); releasing every waiter after one period would exceed that.
+            tokio::time::sleep(period * 5 / 2).await;
+            let log = inner.st.lock().unwrap().log.clone();
+            for (pi, p) in peers.iter().enumerate() {
+                let admitted = log.iter().filter(|e| e.3 == Some(*p)).count() as u64;
+                if admitted > burst as u64 + 3 {
+                    w.violate("quota-exceeded-after-waiting", key.clone(), format!("peer {pi}: {admitted} of {} requests reached the service within 2.5 replenishment periods (burst {burst}, 1 cell per period): waiting requests were released without being charged to the quota", per_peer[pi]));
+                }
+            }
+            w.probe("block-mode-long-wait");
+        }
         for t in tasks {
             t.abort();
         }
@@ -556,8 +571,27 @@ fn run_c20_direct(input: RunInput) -> ScenFuture {
         let n_req = w.param("requests", 1, 100) as u64;
         let closure_auth = w.flag("closure_authorizer", 0.4);
         let mut r = w.rng("wl:c20");
-        let universe: Vec<PeerId> = (0..6).map(|i| PeerId([i as u8 + 1; 32])).collect();
-        let allowed: BTreeSet<PeerId> = universe.iter().copied().filter(|_| r.gen_bool(0.5)).collect();
+        // identities: ordinary ones plus the unusual (all-zero, all-ones, single-bit neighbours)
+        let mut universe: Vec<PeerId> = (0..20).map(|i| PeerId([i as u8 + 1; 32])).collect();
+        universe.push(PeerId([0; 32]));
+        universe.push(PeerId([0xFF; 32]));
+        for i in 0..4 {
+            let mut a = [i as u8 + 1; 32];
+            a[31] ^= 1;
+            universe.push(PeerId(a));
+            let mut b = [i as u8 + 1; 32];
+            b[0] ^= 0x80;
+            universe.push(PeerId(b));
+        }
+        // allow-lists of every size from empty to 20 (ordinary ids; the specials mostly stay unlisted)
+        let n_allowed = r.gen_range(0..=20usize);
+        let mut allowed: BTreeSet<PeerId> = BTreeSet::new();
+        while allowed.len() < n_allowed {
+            let c = universe[r.gen_range(0..universe.len())];
+            if c.0 != [0; 32] && c.0 != [0xFF; 32] || r.gen_bool(0.1) {
+                allowed.insert(c);
+            }
+        }
         let log: Arc<Mutex<Vec<u64>>> = Default::default();
         let log2 = log.clone();
         let inner = tower::service_fn(move |req: Request<Bytes>| {
@@ -582,6 +616,7 @@ fn run_c20_direct(input: RunInput) -> ScenFuture {
         for id in 0..n_req {
             let sender = match r.gen_range(0..10) {
                 0 | 1 => None,
+                2 => Some(universe[20 + r.gen_range(0..universe.len() - 20)]), // an unusual identity
                 _ => Some(universe[r.gen_range(0..universe.len())]),
             };
             let mut req = Request::new(Bytes::new()).with_header("id", id.to_string()).with_header("dur-ms", r.gen_range(0..20).to_string());
